@@ -109,7 +109,7 @@ def oracle_raw(desc):
 RAW_QUERY = ("raw entry [offset value, label value, [parent offset value], [?haschildren 1], [child offset value], "
              "[attribute [label value, form value]]]")
 COOKED_QUERY = ("entry [offset value, [parent offset value], [root offset value], [child offset value], "
-                "[attribute label value]]")
+                "[attribute [label value, form value]]]")
 
 
 def run_replay(ctx):
